@@ -9,7 +9,7 @@ from nflows.utils import torchutils
 
 PROPERTY = "C11"
 RULE = (
-    "{NaiveLinear(orthogonal init / uniform init), LULinear(identity_init on/off), QRLinear, SVDLinear(identity_init on/off), HouseholderSequence} x features 1..4 x Householder "
+    "{NaiveLinear(orthogonal init / uniform init), LULinear(identity_init on/off), QRLinear, SVDLinear(identity_init on/off), HouseholderSequence} x features 1..4 (thorough: up to 8) x Householder "
     "counts 1..2F+2 (odd, even, larger than the feature count) x parameter patterns {as constructed, pat1, pat3, patT (Householder vectors rescaled by 1e-4 / 1e4)} x dtype {float64, float32}. One case = one constructed transform with all "
     "accessor identities checked on a 3-row batch. Non-trivial = features >= 2 or a Householder count other than 2."
 )
@@ -23,11 +23,11 @@ DT = {"float64": torch.float64, "float32": torch.float32}
 
 
 def bounds(tier, seed):
-    return {"features": [1, 2, 3, 4], "householder": "1..2F+2", "patterns": ["init", "pat1", "pat3"], "dtypes": list(DT)}
+    return {"features": [1, 2, 3, 4] if tier == "quick" else [1, 2, 3, 4, 5, 6, 8], "householder": "1..2F+2", "patterns": ["init", "pat1", "pat3"], "dtypes": list(DT)}
 
 
 def cases(tier, seed):
-    for F in (1, 2, 3, 4):
+    for F in ((1, 2, 3, 4) if tier == "quick" else (1, 2, 3, 4, 5, 6, 8)):
         for orth in (True, False):
             yield {"cls": "NaiveLinear", "F": F, "opt": {"orth": orth}}
         for ii in (True, False):
@@ -157,6 +157,8 @@ def check_case(c, pname, dname, seed):
     if not np.isfinite(cond) or cond > 1e8:
         V("not invertible", "weight() has condition number %.3g" % cond)
         return out
+    if dtype == torch.float32 and cond > 1e3:
+        return "skip-ill-conditioned-float32"  # single precision is only claimed for moderate magnitudes (C19)
     b = m.bias.detach()
     if not close(y, x @ W.t() + b, cond):
         V("forward is not x -> W x + b", "forward(x) differs from x weight()^T + bias by %.3g" % float((y - (x @ W.t() + b)).abs().max()))
@@ -196,6 +198,9 @@ def run_unit(unit):
                 if vs is None:
                     bump(res["skipped"], "rejected by explicit argument check")
                     continue
+                if isinstance(vs, str):
+                    bump(res["skipped"], vs)
+                    continue
                 res["evaluations"] += 1
                 res["states"] += 1
                 res["transitions"] += 9
@@ -212,4 +217,6 @@ def run_unit(unit):
 
 def replay(case):
     vs = check_case(case["c"], case["pattern"], case["dtype"], case["seed"]) or []
+    if isinstance(vs, str):
+        vs = []
     return [{"key": "%s|%s|%s" % (case["c"]["cls"], cell, sym), "case": case, "msg": msg} for cell, sym, msg in vs]
